@@ -20,6 +20,17 @@ PROFILES = [(0.0, -1.0, -3.0, 0.0, -1.0, -3.0, 0.0, -1.0), (-3.0, -3.0, -3.0, -3
             (0.0,) * 8, (-math.inf, -1.0, -math.inf, 0.0, -1.0, -1.0, -math.inf, -3.0)]
 
 
+
+KERNEL_IN_SYNC = None
+
+
+def setup():
+    # the API-level cases run the CURRENT kernel source (interpreted) when the compiled extension is stale
+    global KERNEL_IN_SYNC
+    import support as _S
+    KERNEL_IN_SYNC = _S.install_kernel()
+
+
 def cases(tier, seed):
     Ns = (4, 8) if tier == "quick" else (3, 4, 6, 8)
     for N in Ns:
